@@ -58,7 +58,9 @@ BADS = [("garbage", "x\n"), ("unknown-command", "1z\n"), ("non-numeric-range", "
         # beyond DESIGN.md's seven: nothing may follow the command letter (a regex that lost its "$" accepts it)
         ("trailing-garbage", "1dx\n"),
         # white space or a carriage return around an otherwise valid command is not part of the syntax
-        ("trailing-cr", "1d\r\n"), ("trailing-blank", "1d \n"), ("leading-blank", " 1d\n"), ("trailing-cr-append", "1a\r\n")]
+        ("trailing-cr", "1d\r\n"), ("trailing-blank", "1d \n"), ("leading-blank", " 1d\n"), ("trailing-cr-append", "1a\r\n"),
+        # an element that is the empty string where a command is due (only a list or an iterator can hold one)
+        ("empty-string", "")]
 MAXLEN = {"quick": 4, "thorough": 7}
 CHAIN_MAXLEN = {"quick": 2, "thorough": 3}
 EXT_MAXLEN = {"quick": 3, "thorough": 5}
@@ -642,6 +644,14 @@ def _run_old(part, u, tier, seed):
                         run(dcase, "rejected:%s@%s-command:%s" % (dcase["what"], "first" if k == 0 else "later", form), k > 0)
                         part.extra["corrupted or truncated scripts"] += 1
                         via = KINDS if tiny else KINDS_FEW
+                        if any(l == "" for l in dcase["script"]):
+                            # a file cannot deliver an empty string other than at its end; the routes that strip newlines
+                            # use it as their own end marker
+                            via = [k for k in via if k not in ("stream", "file")]
+                            run(dict(dcase, via=via), "other input kinds (%s): rejected:%s@%s-command:%s" % (
+                                ", ".join(via), dcase["what"], "first" if k == 0 else "later", form), k > 0)
+                            part.extra["corrupted or truncated scripts x other input kinds"] += len(via)
+                            continue
                         if any("\r" in l for l in dcase["script"]):
                             # a text stream would translate the carriage return away before the library sees it
                             via = [k for k in via if k not in ("stream", "file")]
